@@ -26,6 +26,7 @@ DEFAULTS = dict(
     pred_agg_ops_s=('Min', 'Max'),
     p_sibling_reuse=0.0, p_feed_sibling=0.0, nest_depth=1, p_multi_combine=0.0,
     p_shuffle=1.0, p_short=0.3, p_colnames=0.1,
+    min_list_len=0,      # C05: 1 keeps empty list literals (type not ground) away
 )
 
 
@@ -56,9 +57,11 @@ class Gen(object):
         if t == 'S':
             return ('lit', rng.choice(STRS))
         if t == 'LN':
-            return ('lit', [rng.choice(NUMS) for _ in range(rng.randint(0, 3))])
+            return ('lit', [rng.choice(NUMS)
+                            for _ in range(rng.randint(self.o['min_list_len'], 3))])
         if t == 'LS':
-            return ('lit', [rng.choice(STRS) for _ in range(rng.randint(0, 3))])
+            return ('lit', [rng.choice(STRS)
+                            for _ in range(rng.randint(self.o['min_list_len'], 3))])
         if t == 'R':
             return ('rec', (('a', self.lit_of('N')), ('b', self.lit_of('S'))))
         raise ValueError(t)
